@@ -221,19 +221,23 @@ Definition from_sorted_edges (es : list (nat * nat * nat)) : res (option csr) :=
 
 (* ---- observation battery ---- *)
 
-Fixpoint zip3 (i : nat) (s : nat) (ts ws : list nat) : list Z :=
+(* skip = undirected: an edge stored in both rows is yielded only from the row of its smaller
+   endpoint (after the fix in /repo); the edge index still counts every stored entry *)
+Fixpoint zip3 (skip : bool) (i : nat) (s : nat) (ts ws : list nat) : list Z :=
   match ts, ws with
-  | t :: ts', w :: ws' => zn i :: zn s :: zn t :: zn w :: zip3 (S i) s ts' ws'
+  | t :: ts', w :: ws' =>
+      (if andb skip (Nat.ltb t s) then [] else [zn i; zn s; zn t; zn w]) ++ zip3 skip (S i) s ts' ws'
   | _, _ => []
   end.
 
 (* edge_references: row.windows(2).enumerate(), slices column[a..b], edges[a..b] *)
-Fixpoint erefs_loop (g : csr) (rows : list nat) (src : nat) (idx : nat) : res (list Z) :=
+Fixpoint erefs_loop (directed : bool) (g : csr) (rows : list nat) (src : nat) (idx : nat) : res (list Z) :=
   match rows with
   | a :: ((b :: _) as rest) =>
       rbind (slice (column g) a b) (fun ts =>
       rbind (slice (cedges g) a b) (fun ws =>
-      rmap (fun tl => zip3 idx src ts ws ++ tl) (erefs_loop g rest (S src) (idx + length ts))))
+      rmap (fun tl => zip3 (negb directed) idx src ts ws ++ tl)
+           (erefs_loop directed g rest (S src) (idx + length ts))))
   | _ => Ok []
   end.
 
@@ -249,7 +253,7 @@ Definition rline {A} (f : A -> line) (r : res A) : line :=
 Definition battery (directed : bool) (g : csr) : list line :=
   (TAG_COUNTS, [zn (node_count g); zn (edge_count directed g)]) ::
   (TAG_NW, zns (nweights g)) ::
-  rline (fun l => (TAG_EREFS, l)) (erefs_loop g (row g) 0 0) ::
+  rline (fun l => (TAG_EREFS, l)) (erefs_loop directed g (row g) 0 0) ::
   flat_map (fun a =>
     [rline (fun l => (TAG_ROW, zn a :: zns l)) (neighbors_slice g a);
      rline (fun l => (TAG_WROW, zn a :: zns l)) (edges_slice g a)]) (seq 0 (node_count g)).
